@@ -67,7 +67,7 @@ def configs(tier, seed):
             for g in dsm.GRIDS:
                 for n in ([3, 4] if tier == "quick" else [3, 4, 5, 6]):
                     for extra in ([{"r": 2}] if tier == "quick" else [{}, {"r": 2}]):
-                        for inflow_at, npts in ([("middle", 1)] if tier == "quick" else [("start", 1), ("middle", 1), ("end", 1), ("middle", 3)]):
+                        for inflow_at, npts in (([("middle", 1)] + ([("middle", 3), ("end", 1)] if (n == 3 and g == "uneven") else [])) if tier == "quick" else [("start", 1), ("middle", 1), ("end", 1), ("middle", 3)]):
                             ek = "x".join(f"{l}{k}" for l, k in extra.items()) or "-"
                             out.append(dict(h="realclass", op=kind + lt, key=f"realclass/{kind}/{lt}/grid={g}/n={n}/extra={ek}/{inflow_at}{npts}",
                                             kind=kind, lt=lt, prm=sorted(prm), grid=g, n=n, extra=extra, inflow_at=inflow_at, npts=npts))
@@ -173,6 +173,21 @@ def run(cfg, w):
         w.ob("check_accepts_computed_stock", True)
     except Exception as e:
         w.ob("check_accepts_computed_stock", False, info=f"{type(e).__name__}: {str(e)[:120]}")
+    # perturb the FIRST step only (inflow of the first time item): stock(0) - 0 = dt(0) * (inflow(0) - outflow(0)) is part of the balance
+    d0 = w.real("delta_first", default=-4)
+    w.assume(w.or_(w.gt(d0 * dt[0], 1), w.lt(d0 * dt[0], -1)))
+    lab_f = dsm.labels(shape[1:])[0]
+    keep = st.inflow.values[(0,) + lab_f]
+    st.inflow.values[(0,) + lab_f] = keep + d0
+    bal_f = st.get_stock_balance()
+    for idx in np.ndindex(*shape):
+        w.lemma_eq(f"first_step_perturbed_balance{list(idx)}", bal_f[idx], (d0 * dt[0]) if (idx[0] == 0 and idx[1:] == lab_f) else 0)
+    try:
+        st.check_stock_balance()
+        w.ob("check_rejects_stock_perturbed_in_the_first_step", False, info="accepted an inflow of the first time item that is off by more than 1 in whole-period terms")
+    except RuntimeError:
+        w.ob("check_rejects_stock_perturbed_in_the_first_step", True)
+    st.inflow.values[(0,) + lab_f] = keep
     # perturb one stock entry beyond the threshold
     delta = w.real("delta", default=3)
     w.assume(w.or_(w.gt(delta, 1), w.lt(delta, -1)))
